@@ -159,7 +159,9 @@ EXTRA = [("R0", 0, "0a77", "pool-0-renewed", -DAY, 3650 * DAY), ("R1", 1, "0b77"
          ("X0", 0, "0ae0", "pool-0-expired-2d", -30 * DAY, -2 * DAY), ("X1", 1, "0be0", "pool-1-expired-2d", -30 * DAY, -2 * DAY),
          ("W0", 0, "0ae1", "pool-0-expired-25h", -30 * DAY, -25 * 3600), ("Z0", 0, "0ae2", "pool-0-expired-23h", -30 * DAY, -23 * 3600),
          ("Y0", 0, "0ae3", "pool-0-expired-1h", -30 * DAY, -3600), ("Y1", 1, "0be3", "pool-1-expired-1h", -30 * DAY, -3600),
-         ("S0", 0, "0ae4", "pool-0-expires-in-1h", -30 * DAY, 3600)]
+         ("S0", 0, "0ae4", "pool-0-expires-in-1h", -30 * DAY, 3600),
+         # a renewal under another key that RE-USES the serial number of C0 (0a01): still a different certificate (seed C18-4)
+         ("Q1", 1, "0a01", "pool-1-same-serial-as-C0", -DAY, 3650 * DAY)]
 
 
 def material():
@@ -554,6 +556,7 @@ def gen_cases(tier, seed):
                     add(1, ops, "two-file-update")
     # ---- each file replaced alone (same key renewal = fine, foreign certificate / key = refused)
     for ce in (1, 0):
+        add(ce, ["Wc:C0", "Wk:K0", "N", "A", "Wc:Q1", "Wk:K1", "R", "A", "Wc:C0", "Wk:K0", "R", "A", "Wc:Q1", "R", "A"], "same-serial-other-key")
         add(ce, ["Wc:C0", "Wk:K0", "N", "A", "Wc:R0", "R", "Wc:C1", "R", "Wc:R0", "Wk:K1", "R", "Wk:K0", "R", "Wc:C1C0", "R", "Wk:KC1", "R",
                  "Wc:T.C1", "R", "Wc:CK0", "Wk:CK0", "R", "H:0", "Dc", "R", "Wc:C0", "Dk", "R", "Wk:K0", "R"], "replaced-alone")
     # ---- truncation prefixes of either file
@@ -611,11 +614,12 @@ def gen_cases(tier, seed):
         (1, "Wc:C0 Wk:K0 N Wc:C1 Wk:K1 R C C C"),
         (0, "Wc:C0 Wk:K0 N C Wc:X0 R C C C Wc:C0 R C C C"),
         (1, "Wc:C0 Wk:K0 N C Wc:C1^200 Wk:K1 R C Wc:C1 R C C C Wk:K1^100 R C"),
+        (1, "Wc:C0 Wk:K0 N C Wc:Q1 Wk:K1 R C C C Wc:C0 Wk:K0 R C C"),
     ]:
         cs.append(mk(m, "c%d" % (len(cs) + 1), ce, ops.split(), "listener-real-socket", True, drv="certlisten", model=False))
     # ---- random histories
     nrand = 240 if tier == "quick" else 3000
-    cnames = ["C0", "C1", "C2", "C3", "R0", "R1", "X0", "Y0", "S0", "G.text", "G.badcert", "CK0", "C1C0"]
+    cnames = ["C0", "C1", "C2", "C3", "R0", "R1", "X0", "Y0", "S0", "Q1", "G.text", "G.badcert", "CK0", "C1C0"]
     knames = ["K0", "K1", "K2", "K3", "G.text", "G.badkey", "CK0", "KC1"]
     for i in range(nrand):
         ops = ["Wc:C0", "Wk:K0", "N"] if r.random() < 0.8 else []
